@@ -8,7 +8,7 @@ import os
 import subprocess
 import sys
 
-from vf.harness import use_world, outcome, freeze, sample, guarded
+from vf.harness import use_world, outcome, freeze, sample, guarded, add_histories, history_of
 from vf.simk.world import World
 
 ID = "C19"
@@ -454,7 +454,7 @@ def run(ctx):
     cases = build_cases(ctx.thorough)
     n = max(1, len(cases) // (ctx.ncpu * 4))
     chunks = [cases[i:i + n] for i in range(0, len(cases), n)]
-    res = [r for ch in ctx.pmap(worker, chunks, chunk=1) for r in ch]
+    res = [r for ch in ctx.pmap_fresh(worker, chunks) for r in ch]
     sc = sysfs_cases(ctx.thorough)
     p = subprocess.run([sys.executable, "-c", "import vf.checks.c19 as m; m.sysfs_main()"], input=json.dumps(sc),
                        capture_output=True, text=True, env=dict(os.environ))
@@ -463,28 +463,26 @@ def run(ctx):
     res += json.loads(p.stdout.split("@@RESULT@@")[1])
     cases = cases + sc
     viols, kinds = [], {}
-    for c, bad in zip(cases, res):
+    for _i, (c, bad) in enumerate(zip(cases, res)):
         kinds[c[0] if c[0] != "cpu" else "cpu:" + c[1]] = kinds.get(c[0] if c[0] != "cpu" else "cpu:" + c[1], 0) + 1
         for cause, msg in bad:
-            viols.append({"cause": cause, "msg": msg, "case": list(c)})
+            viols.append({"cause": cause, "msg": msg, "case": list(c), "_idx": _i})
     cov = {"evaluations": len(cases), "distinct_nontrivial": len({repr(c) for c in cases}),
            "rule": "one evaluation = one /sys + /proc layout queried through the public function; every optional file takes each of "
                    "{ok, missing, unreadable, non-numeric}; distinct by construction", "per_dimension": kinds, "exhaustive": True,
            "samples": [list(map(str, c)) for c in sample(cases, 6)]}
-    return {"coverage": cov, "violations": viols,
+    return {"coverage": cov, "violations": add_histories(viols, cases, n, list),
             "assumptions": ["a threshold value of 0 is outside the statement", "a sensor's `name` file is always present",
                             "the sysfs cpu_freq implementation is exercised in a separate interpreter that imports psutil with the "
                             "cpufreq tree reported present"]}
 
 
-def replay(ctx, case):
-    import psutil
+def _replay_one(psutil, case):
     c = tuple(case)
     if c[0] == "freq-sysfs":
         p = subprocess.run([sys.executable, "-c", "import vf.checks.c19 as m; m.sysfs_main()"], input=json.dumps([case]),
                            capture_output=True, text=True, env=dict(os.environ))
-        bad = json.loads(p.stdout.split("@@RESULT@@")[1])[0]
-        return {"violated": bool(bad), "viols": bad}
+        return json.loads(p.stdout.split("@@RESULT@@")[1])[0]
     if c[0] == "thermal":
         c = (c[0], [tuple(x) for x in c[1]], c[2], c[3])
     if c[0] == "temp":
@@ -493,5 +491,11 @@ def replay(ctx, case):
         c = c[:10] + (tuple(c[10]) if c[10] is not None else None, c[11])
     if c[0] == "cpu" and c[1] == "count":
         c = c[:6] + (tuple(c[6]),)
-    bad = guarded(lambda c_, ps_: RUNNERS[c_[0]](ps_, c_), c, psutil)
+    return guarded(lambda c_, ps_: RUNNERS[c_[0]](ps_, c_), c, psutil)
+
+
+def replay(ctx, case):
+    import psutil
+    for c in history_of(case):
+        bad = _replay_one(psutil, c)
     return {"violated": bool(bad), "viols": bad}
